@@ -41,6 +41,7 @@ func zzSameSlice[T any](a, b []T) bool {
 }
 
 var _ = wire.OwnedBytes
+var _ net.Conn
 
 // --- C03: SEMI E37 §8.2 header byte map (DESIGN.md Appendix F.2) ---
 
